@@ -240,6 +240,21 @@ func runC17(p *Prog, r *Report) {
 					if k, isC := constInt(st.Val); isC && k == 0 {
 						okW = true
 					}
+					// a snapshot being built: slot i of a freshly allocated counter receives slot i of the receiver
+					// (the copy's time bookkeeping is the subject of the snapshot rule R5)
+					if ia, isIA := st.Addr.(*ssa.IndexAddr); isIA {
+						if u, isU := stripConv(ia.X).(*ssa.UnOp); isU {
+							if _, _, base, okf := fieldOf(u.X); okf {
+								if _, fresh := stripConv(base).(*ssa.Alloc); fresh {
+									if lv, isL := stripConv(st.Val).(*ssa.UnOp); isL {
+										if ia2, ok2 := lv.X.(*ssa.IndexAddr); ok2 && c.isElemAddr(ia2) && sameValue(ia2.Index, ia.Index) {
+											okW = true
+										}
+									}
+								}
+							}
+						}
+					}
 					if bo, isB := st.Val.(*ssa.BinOp); isB && bo.Op == token.ADD {
 						x, y := bo.X, bo.Y
 						if _, isP := stripConv(y).(*ssa.Parameter); !isP {
